@@ -47,9 +47,8 @@ pub fn judge_one(ctx: &mut Ctx, rd: &Rendered, sp: &Sp, cfg: &Cfg, step: u8, gen
         return;
     }
     let has_cr = rd.text.contains('\r');
-    if has_cr && ctx.prop == "C16" {
-        ctx.skip("'\\r' in a listing document (rendering of CR is not specified)");
-        return;
+    if has_cr {
+        ctx.count("documents-with-CR (line ranges judged, rendering of the lines not)");
     }
     let (wrappers_ok, starts_clean) = c15_space(rd, step);
     let space = wrappers_ok && starts_clean;
@@ -199,9 +198,14 @@ pub fn run(ctx: &mut Ctx) {
         gc.holds_of_10 = if is17 { 4 } else { 6 };
         gc.max_depth = 4;
         gc.allow_inline = i % 3 == 0;
-        let d = gen_block_doc(&mut r, &gc);
+        let mut d = gen_block_doc(&mut r, &gc);
+        if i % 10 == 8 {
+            // lone carriage returns inside lines / mixed line ends (line numbers count '\n' only)
+            let mode = 1 + (i / 10 % 2) as usize;
+            super::docs::crlf_pieces(&mut d, &mut r, mode);
+        }
         let mut rd = render(&d, &sp);
-        if !is16 && i % 10 == 7 {
+        if i % 10 == 7 {
             // CRLF line ends: spans shift, so re-derive them through the admission gate
             match admit(&rd.text.replace('\n', "\r\n"), &sp, &cfg) {
                 Ok(x) => {
@@ -229,6 +233,10 @@ pub fn run(ctx: &mut Ctx) {
         let rd = render(&d, &sp);
         judge_one(ctx, &rd, &sp, &cfg, STEP, "unwrap-layouts");
     }
+    // ---- bounded-exhaustive line sequences
+    super::docs::lineseq_stage(ctx, if quick { 6 } else { 8 }, if is16 { 0.75 } else { 0.99 }, true, |ctx, rd, sp| {
+        judge_one(ctx, rd, sp, &step_cfg(STEP), STEP, "lineseq");
+    });
     if is16 {
         // ---- high line numbers: the same documents pushed down by N lines (number column width)
         for (k, npre) in [8usize, 97, 98, 99, 998, 999, 9_998, 99_998].iter().enumerate() {
